@@ -60,7 +60,11 @@ type provResult struct {
 }
 
 // driveProvider runs Run in a goroutine (recover ⇒ panic), drains Acquire, watchdog ⇒ hang.
-func driveProvider(p core.Provider, entryOf func(a core.Ammo, ok bool) (string, bool)) provResult {
+func driveProvider(p core.Provider, entryOf func(a core.Ammo, ok bool) (string, bool), cls ...func(error) string) provResult {
+	classOf := errClass
+	if len(cls) == 1 {
+		classOf = cls[0]
+	}
 	ctx, cancel := context.WithCancel(context.Background())
 	defer cancel()
 	runDone := make(chan string, 1)
@@ -71,7 +75,7 @@ func driveProvider(p core.Provider, entryOf func(a core.Ammo, ok bool) (string, 
 			}
 		}()
 		err := p.Run(ctx, core.ProviderDeps{Log: zap.NewNop(), PoolID: "c13"})
-		runDone <- errClass(err)
+		runDone <- classOf(err)
 	}()
 	type acq struct {
 		entries  []string
@@ -154,11 +158,21 @@ func runAmmoOn(fs afero.Fs, kv map[string]string, data []byte) string {
 		hpasses = uint(n)
 		l, _ := strconv.Atoi(kv["limit"])
 		hlimit = uint(l)
-		if hpasses == 0 && hlimit == 0 {
+		// neither limit: only with chosen cases (the run ends when nothing is chosen)
+		if hpasses == 0 && hlimit == 0 && kv["cc"] == "" {
 			return "BADINPUT"
 		}
 	}
-	conf := config.Config{Decoder: config.DecoderType(format), File: name, Passes: hpasses, Limit: hlimit, Preload: kv["pre"] == "1", ContinueOnError: kv["coe"] == "1"}
+	classOf := errClass
+	var chosen []string
+	if kv["cc"] != "" {
+		var ok bool
+		if chosen, ok = ccList(kv["cc"]); !ok {
+			return "BADINPUT"
+		}
+		classOf = errClassCC
+	}
+	conf := config.Config{ChosenCases: chosen, Decoder: config.DecoderType(format), File: name, Passes: hpasses, Limit: hlimit, Preload: kv["pre"] == "1", ContinueOnError: kv["coe"] == "1"}
 	// hdrs=<hex>,<hex>: the `headers` option of the provider config (each one a `[key: value]` string)
 	if kv["hdrs"] != "" {
 		for _, h := range strings.Split(kv["hdrs"], ",") {
@@ -176,7 +190,7 @@ func runAmmoOn(fs afero.Fs, kv map[string]string, data []byte) string {
 	}
 	p, err := httpprovider.NewProvider(fs, conf)
 	if err != nil {
-		return "n=0 e= end=ctor-" + errClass(err)
+		return "n=0 e= end=ctor-" + classOf(err)
 	}
 	res := driveProvider(p, func(a core.Ammo, ok bool) (e string, more bool) {
 		if a == nil {
@@ -213,7 +227,7 @@ func runAmmoOn(fs afero.Fs, kv map[string]string, data []byte) string {
 		default:
 			return hex.EncodeToString([]byte(tag)), true
 		}
-	})
+	}, classOf)
 	return res.String()
 }
 
